@@ -7,6 +7,7 @@ func newDCELFromGeometries(a, b Geometry) *doublyConnectedEdgeList {
 	interactions := findInteractionPoints([]Geometry{a, b, ghosts.AsGeometry()})
 
 	dcel := newDCEL()
+	dcel.multiAreal = [2]bool{hasMultipleArealMembers(a), hasMultipleArealMembers(b)}
 	dcel.addVertices(interactions)
 	dcel.addGhosts(ghosts, interactions)
 	dcel.addGeometry(a, operandA, interactions)
@@ -31,6 +32,10 @@ type doublyConnectedEdgeList struct {
 	faces     []*faceRecord // only populated in the overlay
 	halfEdges map[[2]XY]*halfEdgeRecord
 	vertices  map[XY]*vertexRecord
+
+	// multiAreal records, for each operand, whether it is a collection with
+	// more than one areal member (which may therefore overlap each other).
+	multiAreal [2]bool
 }
 
 type faceRecord struct {
@@ -57,6 +62,11 @@ type halfEdgeRecord struct {
 	// srcFace encodes whether or not this edge explicitly borders onto a face
 	// in the input geometries.
 	srcFace [2]bool
+
+	// srcFaceCount is the number of input polygon rings that border onto a
+	// face along this edge (srcFace is true iff it is non-zero). It is more
+	// than one where areal members of the same operand share a boundary.
+	srcFaceCount [2]int
 
 	// inSet encodes whether or not this edge is (explicitly or implicitly)
 	// part of the input geometry for each operand.
